@@ -77,6 +77,12 @@ type crdtOp struct {
 type crdtInput struct {
 	Peers []uint64 `json:"peers"`
 	Ops   []crdtOp `json:"ops"`
+	// Held: node 0 is shadowed by a second replica that performs the same local operations (and
+	// receives the same injected updates) but whose broadcast queue is left alone until the end of
+	// the script, as memberlist leaves it alone between gossip rounds; what the queue then still
+	// holds is delivered to a fresh replica, which must list what node 0 lists (C09: a broadcast
+	// that is dropped or replaced while it waits in the queue conveys nothing).
+	Held bool `json:"held,omitempty"`
 }
 type crdtFamily struct{}
 
@@ -208,6 +214,29 @@ func sortEvent(e *jEvent) {
 
 // ---- execution
 
+// visibleOf: what a replica lists (sessions, subscriptions, retained messages), sorted
+func visibleOf(st distributed.State) jEvent {
+	var vis jEvent
+	for _, s := range st.SessionMetadatas().All() {
+		s := s
+		vis.Sess = append(vis.Sess, toJSess(&s))
+	}
+	for _, s := range st.Subscriptions().All() {
+		s := s
+		vis.Subs = append(vis.Subs, toJSub(&s))
+	}
+	rs, err := st.Topics().Get([]byte("#"))
+	if err != nil {
+		panic(err)
+	}
+	for _, r := range rs {
+		r := r
+		vis.Ret = append(vis.Ret, toJRet(&r))
+	}
+	sortEvent(&vis)
+	return vis
+}
+
 type crdtNode struct {
 	st    distributed.State
 	bcast *memberlist.TransmitLimitedQueue
@@ -244,6 +273,13 @@ func (crdtFamily) Exec(id int, raw json.RawMessage) Case {
 	var terms []string
 	var obs []interface{}
 	nLocal, nDeliver, nCheck, nBulk := 0, 0, 0, 0
+	var shadow, shadowRecv *crdtNode
+	if in.Held && len(in.Peers) > 0 {
+		q := &memberlist.TransmitLimitedQueue{RetransmitMult: 1, NumNodes: func() int { return 1 }}
+		shadow = &crdtNode{st: distributed.NewState(in.Peers[0], q, audit.NoneRecorder()), bcast: q}
+		q2 := &memberlist.TransmitLimitedQueue{RetransmitMult: 1, NumNodes: func() int { return 1 }}
+		shadowRecv = &crdtNode{st: distributed.NewState(in.Peers[0]+1000, q2, audit.NoneRecorder()), bcast: q2}
+	}
 	step := func(o crdtOp) (term string, ob interface{}) {
 		defer func() {
 			if r := recover(); r != nil {
@@ -258,6 +294,15 @@ func (crdtFamily) Exec(id int, raw json.RawMessage) Case {
 			nLocal++
 			cur = o.Clk
 			f()
+			if shadow != nil && o.N == 0 {
+				// the closures read n.st when they run: the same operation, same clock, on the shadow
+				real := n.st
+				n.st = shadow.st
+				func() {
+					defer func() { n.st = real }()
+					f()
+				}()
+			}
 			last, cnt := n.drain()
 			ev := "None"
 			var evo interface{}
@@ -335,6 +380,10 @@ func (crdtFamily) Exec(id int, raw json.RawMessage) Case {
 		case "inject":
 			nDeliver++
 			n.st.Distributor().NotifyMsg(encodeEvent(*o.Ev))
+			if shadow != nil && o.N == 0 {
+				shadow.st.Distributor().NotifyMsg(encodeEvent(*o.Ev))
+				shadowRecv.st.Distributor().NotifyMsg(encodeEvent(*o.Ev))
+			}
 			return fmt.Sprintf("CInject %s %s", cqNat(o.N), cqEvent(*o.Ev)), nil
 		case "snapshot":
 			nDeliver++
@@ -344,24 +393,7 @@ func (crdtFamily) Exec(id int, raw json.RawMessage) Case {
 			return fmt.Sprintf("CSnapshot %s %s %s", cqNat(o.Src), cqNat(o.N), cqEvent(d)), d
 		case "check":
 			nCheck++
-			var vis jEvent
-			for _, s := range n.st.SessionMetadatas().All() {
-				s := s
-				vis.Sess = append(vis.Sess, toJSess(&s))
-			}
-			for _, s := range n.st.Subscriptions().All() {
-				s := s
-				vis.Subs = append(vis.Subs, toJSub(&s))
-			}
-			rs, err := n.st.Topics().Get([]byte("#"))
-			if err != nil {
-				panic(err)
-			}
-			for _, r := range rs {
-				r := r
-				vis.Ret = append(vis.Ret, toJRet(&r))
-			}
-			sortEvent(&vis)
+			vis := visibleOf(n.st)
 			if o.K == 1 { // visible lists only (C09: the full-state dump is C10's business)
 				return fmt.Sprintf("CCheck %s %s %s %s None", cqNat(o.N), cqSessL(vis.Sess), cqSubL(vis.Subs), cqRetL(vis.Ret)), map[string]interface{}{"visible": vis}
 			}
@@ -394,6 +426,32 @@ func (crdtFamily) Exec(id int, raw json.RawMessage) Case {
 		t, ob := step(o)
 		terms = append(terms, t)
 		obs = append(obs, ob)
+	}
+	if shadow != nil {
+		// gossip at last: whatever the shadow's queue still holds goes to the fresh replica
+		held := 0
+		func() {
+			defer func() {
+				if r := recover(); r != nil {
+					terms = append(terms, "CPanic")
+					obs = append(obs, fmt.Sprintf("panic: %v", r))
+				}
+			}()
+			for {
+				msgs := shadow.bcast.GetBroadcasts(0, 1<<30)
+				if len(msgs) == 0 {
+					break
+				}
+				for _, m := range msgs {
+					held++
+					shadowRecv.st.Distributor().NotifyMsg(m)
+				}
+			}
+			vis := visibleOf(shadowRecv.st)
+			nCheck++
+			terms = append(terms, fmt.Sprintf("CCheck %s %s %s %s None", cqNat(0), cqSessL(vis.Sess), cqSubL(vis.Subs), cqRetL(vis.Ret)))
+			obs = append(obs, map[string]interface{}{"held_queue_receiver": vis, "held_broadcasts": held})
+		}()
 	}
 	if len(obs) > 30 {
 		obs = append(obs[:30], fmt.Sprintf("... %d more", len(obs)-30))
@@ -769,7 +827,7 @@ func (crdtFamily) Gen(n int, seed int64, mode, tier string) []interface{} {
 			}
 			ops = queries(checks(ops))
 		}
-		out = append(out, crdtInput{Peers: peers, Ops: ops})
+		out = append(out, crdtInput{Peers: peers, Ops: ops, Held: mode == "bcast"})
 	}
 	return out
 }
